@@ -177,7 +177,7 @@ fn main() {
             // descriptor exhaustion: runs alone in this process (spawned by the C15 check)
             let rt = tokio::runtime::Builder::new_multi_thread().worker_threads(2).enable_all().build().unwrap();
             let mut ev = vcommon::report::Evidence::new();
-            rt.block_on(c15accept::run(&mut ev, args.tier.pick(4usize, 40), args.seed));
+            rt.block_on(c15accept::run(&mut ev, args.tier.pick(6usize, 42), args.seed));
             if let Some(out) = args.extra.get("out") {
                 let _ = std::fs::write(out, serde_json::to_string(&ev.to_json()).unwrap());
             } else {
